@@ -243,22 +243,40 @@ class _Legacy:
         self.mode, self.items, self.closed = mode, [], 0
 
     async def send(self, item):
-        if self.mode == 1:
+        if self.mode == 1 or self.closed:
+            raise _anyio.BrokenResourceError()
+        self.items.append(item)
+
+    def send_nowait(self, item):
+        if self.mode == 1 or self.closed:
             raise _anyio.BrokenResourceError()
         self.items.append(item)
 
     async def aclose(self):
         self.closed += 1
 
+    def close(self):
+        self.closed += 1
+
+    def statistics(self):
+        # the caller that registered this stream is alive but not suspended in receive() right now (it is still
+        # sending, or reads its streams one after the other)
+        class _S:
+            current_buffer_used, max_buffer_size, open_send_streams, open_receive_streams = 0, 1, 1, 1
+            tasks_waiting_send, tasks_waiting_receive = 0, 0
+
+        return _S()
+
 
 def routing_legacy_pending(kinds, mode, key_as_int):
     """a legacy per-request stream is registered for the id of the response in the stream"""
     data, exp_main, exp_notif = _encode(kinds, False)
     leg = _Legacy(mode)
+    other = _Legacy(0)  # a second caller whose own stream is fine
 
     def prep(client):
         client._pending["1"] = leg
-        client._pending["s-1"] = _Legacy(mode)
+        client._pending["s-1"] = other
 
     c, _ = _run_reader([data], record_json=False, prepare=prep)
     main = [dump(m) for m in c._incoming_send.items]
@@ -266,6 +284,8 @@ def routing_legacy_pending(kinds, mode, key_as_int):
         return "main-stream-differs-when-a-legacy-stream-is-pending"
     if mode == 0 and "resp" in kinds and len(leg.items) != 1:
         return "legacy-stream-did-not-get-its-response"
+    if "req" in kinds and len(other.items) != 1:
+        return "another-caller's-stream-did-not-get-its-message"
     return "ok"
 
 
